@@ -842,6 +842,7 @@ func main() {
 	nRef := flag.Int("ref", 1200, "reference-encoder cases")
 	nMut := flag.Int("mut", 1200, "mutated cases")
 	nRand := flag.Int("rand", 800, "random-bytes cases")
+	nVU := flag.Int("vu", 500, "ValidateUnicode cases")
 	deepN := flag.Int("deep", 2000000, "nesting of the subprocess cases (0 = skip)")
 	cases := flag.String("cases", "/verif/build/wmsgpack/cases", "directory for the model case files")
 	childMode := flag.String("child", "", "internal")
@@ -853,7 +854,7 @@ func main() {
 	}
 	seed := vh.SeedFromEnv()
 	h := &H{r: vh.NewRng(seed)}
-	h.sum = vh.NewSummary("enc: random item trees (boundary ints/lengths 15/16/31/32/255/256/65535/65536, floats incl. NaN/subnormal, times around 2^32/2^34/zero) x 16 encoder option vectors, real Encoder bytes vs model enc and vs reference decoder; ref: reference encoder choosing among all spec-permitted forms -> real Decode(&interface{}) and nextValueBytes; mut: one or two mutations of valid encodings; rand: descriptor-biased random bytes; first: all 256 first bytes x 6 tails; nest: nesting 1..1500; deep: 2M nested containers in a subprocess with a 64 MB stack. distinct = (stream, first-byte class, outcome class, option vector, length bucket)")
+	h.sum = vh.NewSummary("enc: random item trees (boundary ints/lengths 15/16/31/32/255/256/65535/65536, floats incl. NaN/subnormal, times around 2^32/2^34/zero) x 16 encoder option vectors, real Encoder bytes vs model enc and vs reference decoder; ref: reference encoder choosing among all spec-permitted forms -> real Decode(&interface{}) and nextValueBytes; mut: one or two mutations of valid encodings; rand: descriptor-biased random bytes; first: all 256 first bytes x 6 tails; vu: well-/ill-formed UTF-8 (truncated, overlong, surrogates, > U+10FFFF) in str values, array elements and map keys decoded with ValidateUnicode on, vs model dec_naked_vu and the property's own oracle; nest: nesting 1..1500; deep: 2M nested containers in a subprocess with a 64 MB stack. distinct = (stream, first-byte class, outcome class, option vector, length bucket)")
 	h.cv = vh.NewCases(*cases, "From Coq Require Import List NArith ZArith.\nFrom Verif Require Import Base.Outcome Wire.Item Wire.Msgpack Wire.MsgpackCorr.\nImport ListNotations.", "case", "mismatches", 150)
 	h.encStream(*nEnc)
 	valid := h.refStream(*nRef)
@@ -861,6 +862,7 @@ func main() {
 	h.randStream(*nRand)
 	h.firstStream()
 	h.nestStream()
+	h.vuStream(*nVU)
 	h.cv.Close()
 	if *deepN > 0 {
 		h.deepStream(*deepN)
